@@ -82,7 +82,7 @@ theorem good_withBlock {body : CM Unit} (hb : Good body) : Good (withBlock body)
       limsOf_tables rfl (by rw [htr2]; exact (fmd_cons_block hblk2).symm) (by rw [htr2]; exact (fnf_cons_block hblk2).symm)
     rw [e1] at h1; rw [e2]; exact h1
   have hchain2 : ChainOK s2.constants r2 := by have := hi2.chain; rw [htr2] at this; exact this.tail
-  refine ⟨⟨hrne, hchain2, hi2.walk, hi2.loops, hi2.consts, ?_, hi2.bok⟩,
+  refine ⟨⟨hrne, hchain2, hi2.walk, hi2.loops, hi2.consts, ?_, hi2.bok, hi2.tryLt⟩,
     hr2.transfer hin1 hl1 rfl rfl hch.tail (by rw [← hc1]; exact hr2.cpre), trivial⟩
   have e2 : limsOf { s2 with tables := r2 } = limsOf s2 :=
     limsOf_tables rfl (by rw [htr2]; exact (fmd_cons_block hblk2).symm) (by rw [htr2]; exact (fnf_cons_block hblk2).symm)
@@ -119,7 +119,7 @@ theorem st_withLoop_bindA {β} {body : CM Unit} {f : Loop → CM β} {s0 s : CSt
   generalize hs1 : ({ s with loops := { lastTryCatchIndex := s.tryCatchIndex } :: s.loops } : CState) = s1
   have hi1 : Inv s1 := by
     subst hs1
-    refine ⟨hst.inv.ne, hst.inv.chain, hst.inv.walk, ?_, hst.inv.consts, hst.inv.targets, hst.inv.bok⟩
+    refine ⟨hst.inv.ne, hst.inv.chain, hst.inv.walk, ?_, hst.inv.consts, hst.inv.targets, hst.inv.bok, hst.inv.tryLt⟩
     intro l hl p hp
     simp at hl
     rcases hl with hl | hl
@@ -149,7 +149,7 @@ theorem st_withLoop_bindA {β} {body : CM Unit} {f : Loop → CM β} {s0 s : CSt
   apply h
   have hsz : s.insts.size ≤ s2.insts.size := by rw [← hin1]; exact hr2.pre.1
   have hpre : Pre s.insts s2.insts := by rw [← hin1]; exact hr2.pre
-  refine ⟨⟨hi2.ne, hi2.chain, hi2.walk, ?_, hi2.consts, hi2.targets, hi2.bok⟩, ?_, ?_, ?_⟩
+  refine ⟨⟨hi2.ne, hi2.chain, hi2.walk, ?_, hi2.consts, hi2.targets, hi2.bok, hi2.tryLt⟩, ?_, ?_, ?_⟩
   · intro l hl p hp
     exact hi2.loops l (by rw [hl2]; simp [hl]) p hp
   · have hc1 : s1.constants = s.constants := by subst hs1; rfl
@@ -829,13 +829,13 @@ theorem sat_modLoop_add {f : Loop → Loop} {p : Nat} {s0 s : CState} {ps ts : L
   cases hl : s.loops with
   | nil =>
     simp only
-    refine ⟨⟨hst.inv.ne, hst.inv.chain, hst.inv.walk, fun l h => by simp at h, hst.inv.consts, hst.inv.targets, hst.inv.bok⟩,
+    refine ⟨⟨hst.inv.ne, hst.inv.chain, hst.inv.walk, fun l h => by simp at h, hst.inv.consts, hst.inv.targets, hst.inv.bok, hst.inv.tryLt⟩,
       ⟨hst.rel.chain, hst.rel.pre, ?_, ?_, fun l0 l' _ h' => by simp at h', hst.rel.cpre⟩, trivial⟩
     · have := hst.rel.llen; rw [hl] at this; simpa using this
     · have := hst.rel.ltail; rw [hl] at this; simpa using this
   | cons l r =>
     simp only [hl]
-    refine ⟨⟨hst.inv.ne, hst.inv.chain, hst.inv.walk, ?_, hst.inv.consts, hst.inv.targets, hst.inv.bok⟩,
+    refine ⟨⟨hst.inv.ne, hst.inv.chain, hst.inv.walk, ?_, hst.inv.consts, hst.inv.targets, hst.inv.bok, hst.inv.tryLt⟩,
       ⟨hst.rel.chain, hst.rel.pre, ?_, ?_, ?_, hst.rel.cpre⟩, trivial⟩
     · intro l' hl' q hq
       simp at hl'
@@ -916,7 +916,7 @@ theorem sat_finishTail (lastOp : Nat) (pend : List Nat) (s : CState) (hs : Inv s
     apply Sat.pure
     have hch := hi1.chain
     rw [ht1, htr] at hch
-    refine ⟨hi1, hr1, ht1, ⟨⟨hi1.walk, ?_⟩, ?_, ?_⟩, hch.2.1⟩
+    refine ⟨hi1, hr1, ht1, ⟨⟨hi1.walk, ?_⟩, ?_, ?_⟩, hch.2.1, hi1.tryLt⟩
     · have := hi1.targets; rw [hlims s1 ht1] at this; exact this
     · exact jumpsStrict_append hs.targets hs.walk hr1.pre (by rw [hsz, hopb]) hget (by rw [hopb]; rfl) (by rw [hopb]; decide)
     · exact endsInReturn_append hs.walk hr1.pre (by rw [hsz, hopb]) hget hopb
@@ -934,7 +934,7 @@ theorem sat_finishTail (lastOp : Nat) (pend : List Nat) (s : CState) (hs : Inv s
     apply Sat.pure
     have hch := hs.chain
     rw [htr] at hch
-    refine ⟨hs, Rel.refl s, rfl, ⟨⟨hs.walk, ?_⟩, jumpsStrict_of_pend hs.targets hp, ?_⟩, hch.2.1⟩
+    refine ⟨hs, Rel.refl s, rfl, ⟨⟨hs.walk, ?_⟩, jumpsStrict_of_pend hs.targets hp, ?_⟩, hch.2.1, hs.tryLt⟩
     · have := hs.targets; rw [hlims s rfl] at this; exact this
     · rcases hl with ⟨_, h0⟩ | hl
       · rw [hlo] at h0; cases h0
@@ -992,7 +992,7 @@ theorem goodS_withFn (pos : Pos) (variadic : Bool) (params : List String) {body 
   have hb2 : s2.builtins = s.builtins := by subst hs2; exact hb1
   have hi2 : Inv s2 := by
     refine ⟨by rw [ht2]; simp, ?_, by rw [hin2]; exact Walk.refl 0, by rw [hl2]; intro l hl; simp at hl, by rw [hc2]; exact hs.consts,
-      ?_, by rw [hb2]; exact hs.bok⟩
+      ?_, by rw [hb2]; exact hs.bok, by rw [hin2]; exact TryLt.empty⟩
     · rw [ht2, hc2]; exact chain_fork hs.chain hs.ne tn (by subst htn; rfl) (by subst htn; rfl) (by subst htn; rfl)
     · rw [hin2]; intro p op hbd _; exact absurd hbd.2 (by simp)
   apply Sat.bind
@@ -1024,7 +1024,7 @@ theorem goodS_withFn (pos : Pos) (variadic : Bool) (params : List String) {body 
   have hch5 := hi5.chain
   rw [htr5] at hch5
   have hne : r4 ≠ [] := ne_of_chainLE hle4 hs.ne
-  refine ⟨⟨hne, hch5.tail, hs.walk, hs.loops, hi5.consts, hs.targets.mono ⟨hcp, hle4.fmd, hle4.fnf⟩, hs.bok⟩,
+  refine ⟨⟨hne, hch5.tail, hs.walk, hs.loops, hi5.consts, hs.targets.mono ⟨hcp, hle4.fmd, hle4.fnf⟩, hs.bok, hs.tryLt⟩,
     Rel.of_same hle4 rfl rfl hcp, hfn, hch5.2.2.1 hblk4⟩
 
 theorem good_emitMakeArray (pos : Pos) : Good (emit_ pos OpGetBuiltin [Gen.builtinMakeArray]) :=
